@@ -538,7 +538,7 @@ func presenceRule(c *Ctx, fnName string, rows []presRow) int {
 			switch {
 			case nSuccess == 0:
 				r.Add("STRUCT.presence", fnName, text, pos, false, "no success return path found")
-			case untested != "" && calleeTestsFlag(fn, untested):
+			case untested != "" && calleeTestsFlag(fn, untested, f):
 				// the presence test moved into the helper that decodes the field: the per-path rule, which walks this
 				// function's own branches, does not see it
 				r.Infof("STRUCT.presence %s: %s: not decided — flag %s is tested inside a helper, not in the function itself", fnName, text, untested)
@@ -560,11 +560,21 @@ func isErrType(t types.Type) bool {
 	return ok && n.Obj().Pkg() == nil && n.Obj().Name() == "error"
 }
 
-// calleeTestsFlag: some function fn calls (module functions, transitively) branches on a load of a field named flag.
-func calleeTestsFlag(fn *ssa.Function, flag string) bool {
+// calleeTestsFlag: a function that fn calls (module functions, transitively) both branches on a load of a field
+// named flag and stores the field named field (the helper that decodes the field carries its presence test).
+func calleeTestsFlag(fn *ssa.Function, flag, field string) bool {
+	tests, stores := map[*ssa.Function]bool{}, map[*ssa.Function]bool{}
 	for _, b := range blocksWithCallees(fn) {
-		if b.Parent() == fn || len(b.Instrs) == 0 {
+		g := b.Parent()
+		if g == fn || len(b.Instrs) == 0 {
 			continue
+		}
+		for _, in := range b.Instrs {
+			if st, ok := in.(*ssa.Store); ok {
+				if fa, ok := st.Addr.(*ssa.FieldAddr); ok && core.FieldName(fa) == field {
+					stores[g] = true
+				}
+			}
 		}
 		iff, ok := b.Instrs[len(b.Instrs)-1].(*ssa.If)
 		if !ok {
@@ -579,8 +589,13 @@ func calleeTestsFlag(fn *ssa.Function, flag string) bool {
 		}
 		for _, v := range vals {
 			if loadedField(v) == flag {
-				return true
+				tests[g] = true
 			}
+		}
+	}
+	for g := range tests {
+		if stores[g] {
+			return true
 		}
 	}
 	return false
